@@ -263,6 +263,9 @@ def aggregate_evidence(prop, tier, seed, out, wall, extra):
         "wall_s": round(wall, 3), "violations": len(out.violations),
     }
     json.dump(ev, open(os.path.join(EVID, prop + ".json"), "w"), indent=1)
+    # the last run of each tier is also kept side by side (evidence/<id>.json is whichever tier ran last)
+    os.makedirs(os.path.join(EVID, tier), exist_ok=True)
+    json.dump(ev, open(os.path.join(EVID, tier, prop + ".json"), "w"), indent=1)
 
 
 def finish(prop, out):
